@@ -51,6 +51,9 @@ class Command:
 class RegWorld(World):
     def __init__(self, scenario):
         super().__init__(scenario, max_steps=60000, max_time=600.0)
+        self.time_module.ticks = tuple(scenario.get('config', {}).get('wall_ticks', ()))
+        if self.time_module.ticks:
+            self.stats['fault.clock_ticks_between_reads'] += sum(1 for x in self.time_module.ticks if x)
         self.fe = self.cfg.get('frontend', 'v2')
         self.set_ndn_log_level(bool(self.cfg.get('debug_log', False)))
         self.face = DirectFace(self._on_tx)
@@ -370,7 +373,9 @@ class RegWorld(World):
             eb = [x for x in ev if x['k'] == 'command' and x['idx'] == b.idx][0]
             free_at = a.answered_t if a.answered_t is not None else a.t + LIFETIME_US
             free_at = min(free_at, a.t + LIFETIME_US)
-            if ea['conn'] == eb['conn'] and b.t < free_at - W_US:
+            # (with a wall clock that moves between reads, a lifetime measured on it ends that much earlier in loop time)
+            slack = W_US + 3 * max(self.scenario.get('config', {}).get('wall_ticks', [0]) or [0])
+            if ea['conn'] == eb['conn'] and b.t < free_at - slack:
                 self.violate('C17', 'concurrent-commands', fe, b.verb,
                              f'command #{b.idx} ({b.verb}) was sent at t={b.t}us while command #{a.idx} ({a.verb}, sent '
                              f't={a.t}us) was still outstanding until t={free_at}us')
@@ -395,7 +400,8 @@ class RegWorld(World):
             kind = pol.get('kind', 'ok')
             delay = pol.get('delay_us', 100)
             if kind == 'ok':
-                exp = {True} if delay < LIFETIME_US - W_US else ({False} if delay > LIFETIME_US + W_US else {True, False})
+                wsl = W_US + 3 * max(self.scenario.get('config', {}).get('wall_ticks', [0]) or [0])
+                exp = {True} if delay < LIFETIME_US - wsl else ({False} if delay > LIFETIME_US + wsl else {True, False})
             else:
                 exp = {False}
             if len(exp) == 2:
@@ -442,6 +448,9 @@ def generate(rng, seed, tier='quick'):
     fe = rng.choice(['v1', 'v2'])
     cfg = {'frontend': fe, 'turn_cost_us': rng.choice([0, 0, 1, 3]), 'wall_gran_us': rng.choice([1000, 1000, 2000, 8000]),
            'debug_log': rng.random() < 0.2}
+    if rng.random() < 0.25:
+        # the wall clock moves on between two consecutive reads now and then (a tick, or a whole granule)
+        cfg['wall_ticks'] = [rng.choice([0, 0, 0, 0, 400, cfg['wall_gran_us']]) for _ in range(60)]
     n_calls = rng.randint(1, 8)
     ops = []
     t = 2000
